@@ -94,6 +94,7 @@ type Run struct {
 	clock    int
 	env      *Env
 	sleepLog []Value
+	readsWithoutDeadline int
 	bufGen          map[*Value]*Backing
 	bufResetPending map[*Value]bool
 
